@@ -162,6 +162,14 @@ class Inliner:
                         return None
         elif isinstance(f, ast.Name):
             h = self.repo.functions.get(f"{fi.module.name}:{name}")
+            if h is None:
+                # a local closure (`def convert(raw): return ...` inside the function) that is only called, never passed around or rebound
+                nested = [n for n in _walk_own(fi.node) if isinstance(n, ast.FunctionDef) and n.name == name]
+                other_uses = [n for n in ast.walk(fi.node) if isinstance(n, ast.Name) and n.id == name and not any(n is c.func for c in ast.walk(fi.node) if isinstance(c, ast.Call))]
+                if len(nested) == 1 and not other_uses and not nested[0].decorator_list and not any(isinstance(x, (ast.Nonlocal, ast.Global)) for x in ast.walk(nested[0])) \
+                        and not any(isinstance(c, ast.Call) and isinstance(c.func, ast.Name) and c.func.id == name for c in ast.walk(nested[0])):
+                    from .model import FuncInfo as _FI
+                    h = _FI(qual=f"{fi.qual}.<locals>.{name}", module=fi.module, cls=None, node=nested[0], name=name)
         if h is None or h.qual == fi.qual or h.qual in self.stack:
             return None
         if not private and h.qual in known_functions():
@@ -363,6 +371,7 @@ class Inliner:
         if rename:
             holder = _Subst(rename).visit(holder)
         ret_name = f"__ret_{k}"
+        as_condition = kind == "test"
 
         class R(ast.NodeTransformer):
             def visit_FunctionDef(self, n):
@@ -373,9 +382,21 @@ class Inliner:
             visit_Lambda = visit_FunctionDef
 
             def visit_Return(self, r: ast.Return) -> ast.AST:
-                new = ast.Assign(targets=[ast.Name(id=ret_name, ctx=ast.Store())], value=r.value or ast.Constant(value=None))
-                new._xsa_jump = k  # type: ignore[attr-defined]
-                return ast.copy_location(new, r)
+                def jump(v: ast.expr) -> ast.Assign:
+                    a = ast.Assign(targets=[ast.Name(id=ret_name, ctx=ast.Store())], value=v)
+                    a._xsa_jump = k  # type: ignore[attr-defined]
+                    ast.copy_location(a, r)
+                    ast.copy_location(a.targets[0], r)
+                    if not hasattr(v, "lineno"):
+                        ast.copy_location(v, r)
+                    return a
+
+                v = r.value or ast.Constant(value=None)
+                if as_condition and not isinstance(v, ast.Constant):
+                    # the result is only tested: `return E` is `if E: return True / else: return False`, which keeps the decision in the
+                    # control flow (every atomic test of E becomes a test of the caller)
+                    return ast.copy_location(ast.If(test=v, body=[jump(ast.Constant(value=True))], orelse=[jump(ast.Constant(value=False))]), r)
+                return jump(v)
 
         holder = R().visit(holder)
         block = ast.If(test=ast.Constant(value=True), body=[*binds, *holder.body] or [ast.Pass()], orelse=[])
@@ -413,6 +434,23 @@ class Inliner:
             if isinstance(st, (ast.FunctionDef, ast.AsyncFunctionDef, ast.ClassDef)):
                 out.append(st)
                 continue
+            # 0. `if a and helper(x): body` (no else) is `if a: if helper(x): body`: gives the helper call a statement of its own to be spliced at
+            if isinstance(st, ast.If) and not st.orelse and isinstance(st.test, ast.BoolOp) and isinstance(st.test.op, ast.And) and not hasattr(st, "_xsa_inline"):
+                def _is_helper_call(v: ast.expr) -> bool:
+                    while isinstance(v, ast.UnaryOp) and isinstance(v.op, ast.Not):
+                        v = v.operand
+                    if not isinstance(v, ast.Call):
+                        return False
+                    h_ = self._helper_for(fi, v)
+                    return h_ is not None and not _is_generator(h_.node) and self._expr_helper(h_) is None
+
+                if any(_is_helper_call(v) for v in st.test.values):
+                    inner_body = st.body
+                    for v in reversed(st.test.values[1:]):
+                        nested = ast.copy_location(ast.If(test=v, body=inner_body, orelse=[]), st)
+                        inner_body = [nested]
+                    st.test = st.test.values[0]
+                    st.body = inner_body
             # 1. expression helpers anywhere in the statement's own expressions
             for field, value in list(ast.iter_fields(st)):
                 if isinstance(value, ast.expr):
@@ -435,10 +473,82 @@ class Inliner:
             sc = self._stmt_call(st)
             spliced = self._splice(fi, st, sc[0], sc[1], depth) if sc is not None else None
             if spliced is None:
+                # 4. a helper call that is evaluated first inside a larger expression (`self.build_x(a).run(b)`, `f(self.build_x(a), b)`) is
+                #    given a temporary of its own, then spliced like any `tmp = helper(...)`
+                hoisted = self._hoist_first_call(fi, st)
+                if hoisted is not None:
+                    pre, st2 = hoisted
+                    sp = self._splice(fi, pre, pre.value, "value", depth)
+                    if sp is not None:
+                        out.extend(sp)
+                        out.append(st2)
+                        continue
+                    # not spliceable after all: undo
+                    self._unhoist(st2, pre)
                 out.append(st)
             else:
                 out.extend(spliced)
         return out
+
+    def _first_evaluated_call(self, e: ast.expr) -> ast.Call | None:
+        """The call that runs first when ``e`` is evaluated, if it sits in receiver / first-argument position of the outer call."""
+        if not isinstance(e, ast.Call):
+            return None
+        f = e.func
+        # receiver chain: h(...).m(...)  /  h(...).attr.m(...)
+        cur = f
+        while isinstance(cur, ast.Attribute):
+            cur = cur.value
+        if isinstance(cur, ast.Call):
+            return cur
+        if isinstance(cur, ast.Name) or isinstance(f, ast.Attribute):
+            for a in e.args:
+                if isinstance(a, ast.Call):
+                    return a
+                if not isinstance(a, (ast.Name, ast.Attribute, ast.Constant)):
+                    return None
+        return None
+
+    def _hoist_first_call(self, fi: "FuncInfo", st: ast.stmt):
+        if isinstance(st, ast.Expr):
+            root = st.value
+        elif isinstance(st, (ast.Assign, ast.AnnAssign, ast.Return)) and st.value is not None:
+            root = st.value
+        else:
+            return None
+        if isinstance(root, (ast.Yield, ast.YieldFrom, ast.Await)):
+            return None
+        inner = self._first_evaluated_call(root)
+        if inner is None:
+            return None
+        h = self._helper_for(fi, inner)
+        if h is None or _is_generator(h.node) or self._expr_helper(h) is not None:
+            return None
+        self.counter += 1
+        name = f"__call_{self.counter}"
+        pre = ast.Assign(targets=[ast.Name(id=name, ctx=ast.Store())], value=inner, type_comment=None)
+        ast.copy_location(pre, st)
+        ast.copy_location(pre.targets[0], st)
+        repl = ast.copy_location(ast.Name(id=name, ctx=ast.Load()), inner)
+
+        class T(ast.NodeTransformer):
+            def visit_Call(self, c: ast.Call):
+                if c is inner:
+                    return repl
+                return self.generic_visit(c)
+
+        T().visit(st)
+        st._xsa_hoisted = (repl, inner)  # type: ignore[attr-defined]
+        return pre, st
+
+    def _unhoist(self, st: ast.stmt, pre: ast.Assign) -> None:
+        repl, inner = st._xsa_hoisted  # type: ignore[attr-defined]
+
+        class T(ast.NodeTransformer):
+            def visit_Name(self, n: ast.Name):
+                return inner if n is repl else n
+
+        T().visit(st)
 
 
 class _IfExpToIf(ast.NodeTransformer):
@@ -492,7 +602,7 @@ class _IfExpToIf(ast.NodeTransformer):
         return node
 
 
-def unroll_display_loops(fn: ast.AST) -> int:
+def unroll_display_loops(fn: ast.AST, module_displays: dict[str, ast.expr] | None = None) -> int:
     """``for x in (a, b, c): body`` (the display written in place, or named by a local that is used for nothing else) becomes
     ``x = a; body; x = b; body; x = c; body``: a short fixed sequence written as a loop over a literal and the same sequence written out are
     one and the same to every rule.  Only loops without break / continue / else, a plain name as target and at most 10 items."""
@@ -515,6 +625,8 @@ def unroll_display_loops(fn: ast.AST) -> int:
     def display_of(it: ast.expr) -> tuple[ast.expr | None, ast.Assign | None]:
         if isinstance(it, (ast.Tuple, ast.List)):
             return it, None
+        if isinstance(it, ast.Name) and module_displays and it.id in module_displays and stores_n.get(it.id, 0) == 0:
+            return copy.deepcopy(module_displays[it.id]), None  # a module-level constant tuple / list
         if isinstance(it, ast.Name) and uses.get(it.id, 0) == 1 and stores_n.get(it.id, 0) == 1 and len(defs.get(it.id, [])) == 1 and isinstance(defs[it.id][0].value, (ast.Tuple, ast.List)):
             return defs[it.id][0].value, defs[it.id][0]
         return None, None
@@ -551,6 +663,106 @@ def unroll_display_loops(fn: ast.AST) -> int:
 
     fn.body = process(fn.body)
     return count
+
+
+def propagate_attr_aliases(fn: ast.AST) -> int:
+    """``ctx = self.ns_context`` ... ``ctx.pop()``: a local that merely names an attribute chain (``self.a``, ``self.a.b``, ``param.a``) is
+    replaced by the chain itself, so that code written with and without such a temporary is one and the same to every rule.  Only when the
+    local is assigned exactly once and only read, the root of the chain is never rebound, and no use of the local can run after the
+    attribute was rebound in this function (then the alias and the attribute would name different objects)."""
+    if not isinstance(fn, (ast.FunctionDef, ast.AsyncFunctionDef)):
+        return 0
+    stores_n: dict[str, int] = {}
+    for n in _walk_own(fn):
+        if isinstance(n, ast.Name) and isinstance(n.ctx, (ast.Store, ast.Del)):
+            stores_n[n.id] = stores_n.get(n.id, 0) + 1
+
+    def chain(e: ast.expr) -> str | None:
+        parts = []
+        while isinstance(e, ast.Attribute):
+            parts.append(e.attr)
+            e = e.value
+        if isinstance(e, ast.Name) and parts and stores_n.get(e.id, 0) == 0:
+            return e.id + "." + ".".join(reversed(parts))
+        return None
+
+    cands: dict[str, ast.Assign] = {}
+    params = {a.arg for a in [*fn.args.posonlyargs, *fn.args.args, *fn.args.kwonlyargs]} | ({fn.args.vararg.arg} if fn.args.vararg else set()) | ({fn.args.kwarg.arg} if fn.args.kwarg else set())
+    for n in _walk_own(fn):
+        if isinstance(n, ast.Assign) and len(n.targets) == 1 and isinstance(n.targets[0], ast.Name) and n.targets[0].id not in params and chain(n.value) is not None and stores_n.get(n.targets[0].id, 0) == 1 \
+                and not hasattr(n, "_xsa_jump") and not hasattr(n, "_xsa_unrolled"):
+            cands[n.targets[0].id] = n
+    if not cands:
+        return 0
+    # attribute chains (by text) that are rebound / deleted somewhere in the function
+    rebound: dict[str, list[ast.AST]] = {}
+    for n in _walk_own(fn):
+        if isinstance(n, ast.Attribute) and isinstance(n.ctx, (ast.Store, ast.Del)):
+            rebound.setdefault(ast.unparse(n), []).append(n)
+    from .cfg import build_cfg
+    g = None
+    done = 0
+    for name, st in list(cands.items()):
+        text = ast.unparse(st.value)
+        prefixes = {text[:i] for i in range(len(text) + 1) if i == len(text) or text[i] == "."}
+        hits = [n for t in prefixes for n in rebound.get(t, [])]
+        uses = [n for n in _walk_own(fn) if isinstance(n, ast.Name) and n.id == name and isinstance(n.ctx, ast.Load)]
+        if any(isinstance(p, (ast.Lambda, ast.GeneratorExp, ast.ListComp, ast.SetComp, ast.DictComp)) and any(u is x for x in ast.walk(p) for u in uses) for p in _walk_own(fn)):
+            pass  # uses inside comprehensions / lambdas evaluate where they are written: still fine for an alias of a stable chain
+        if hits:
+            if g is None:
+                g = build_cfg(fn)
+            from .q import node_containing
+            hit_nodes = [node_containing(g, h) for h in hits]
+            use_nodes = [node_containing(g, u) for u in uses]
+            if any(h is None for h in hit_nodes) or any(u is None for u in use_nodes):
+                continue
+            after = set()
+            for h in hit_nodes:
+                after |= g.reachable([m for m, _ in g.succ[h.id]])
+            if any(u.id in after for u in use_nodes):
+                continue
+        # substitute
+
+        class S(ast.NodeTransformer):
+            def visit_Name(self, x: ast.Name):
+                if x.id == name and isinstance(x.ctx, ast.Load):
+                    return ast.copy_location(copy.deepcopy(st.value), x)
+                return x
+
+            def visit_FunctionDef(self, x):
+                return x if x is not fn else self.generic_visit(x)
+
+            visit_AsyncFunctionDef = visit_FunctionDef
+            visit_ClassDef = visit_FunctionDef
+
+        S().visit(fn)
+
+        def drop(body: list[ast.stmt]) -> list[ast.stmt]:
+            out = []
+            for b in body:
+                if b is st:
+                    continue
+                for field in ("body", "orelse", "finalbody"):
+                    sub = getattr(b, field, None)
+                    if isinstance(sub, list) and sub and isinstance(sub[0], ast.stmt) and not isinstance(b, (ast.FunctionDef, ast.AsyncFunctionDef, ast.ClassDef)):
+                        new = drop(sub)
+                        setattr(b, field, new or ([ast.copy_location(ast.Pass(), b)] if field == "body" else []))
+                for h in getattr(b, "handlers", []) or []:
+                    h.body = drop(h.body) or [ast.copy_location(ast.Pass(), h)]
+                out.append(b)
+            return out
+
+        fn.body = drop(fn.body) or [ast.copy_location(ast.Pass(), fn)]
+        done += 1
+        g = None
+        for attr in ("_xsa_cfg", "_xsa_asrc", "_xsa_single_defs", "_xsa_defs"):
+            if hasattr(fn, attr):
+                delattr(fn, attr)
+    for attr in ("_xsa_cfg", "_xsa_asrc", "_xsa_single_defs", "_xsa_defs"):
+        if hasattr(fn, attr):
+            delattr(fn, attr)
+    return done
 
 
 class _YieldFromDisplay(ast.NodeTransformer):
@@ -826,7 +1038,8 @@ def normalize_conditionals(repo: "Repo") -> int:
         fi.node.body = _apply(w, fi.node.body)
         fi.node.body = _apply(u, fi.node.body)
         c = inline_condition_temps(fi.node)
-        c += unroll_display_loops(fi.node)
+        c += unroll_display_loops(fi.node, {k: v for k, v in fi.module.globals.items() if isinstance(v, (ast.Tuple, ast.List))})
+        c += propagate_attr_aliases(fi.node)
         fi.node.body = _apply(t, fi.node.body)
         if (m.count, w.count, t.count, u.count, y.count) != before or c:
             ast.fix_missing_locations(fi.node)
